@@ -9,7 +9,8 @@ mkdir -p "$VERIF/.work/bin" "$VERIF/.work/run" "$VERIF/evidence" "$VERIF/replays
 cd "$VERIF/harness" || exit 1
 go version || exit 1
 go build -tags verif ./kit/... || exit 1
-go test -tags verif -vet=off -count=1 -run '^$' ./... >/dev/null 2>"$VERIF/.work/setup.err" || { cat "$VERIF/.work/setup.err"; exit 1; }
+pkgs=$(go list -tags verif ./... 2>/dev/null | grep -v '/overlay/')
+go test -tags verif -vet=off -count=1 -run '^$' $pkgs >/dev/null 2>"$VERIF/.work/setup.err" || { cat "$VERIF/.work/setup.err"; exit 1; }
 racepk=$(awk -F'|' '$3==1 || $4==1 {print $2}' "$VERIF/checks.tbl" | grep -v '^overlay:' | sort -u | sed 's#^#./#')
 if [ -n "$racepk" ]; then
   go test -tags verif -race -vet=off -count=1 -run '^$' $racepk >/dev/null 2>"$VERIF/.work/setup.err" || { cat "$VERIF/.work/setup.err"; exit 1; }
